@@ -35,6 +35,7 @@ type Leaf struct {
 	Via    []string // library functions crossed (innermost last), for diagnostics
 	Sliced bool   // a Slice with explicit bounds was applied on the way
 	V      ssa.Value
+	LenOnly bool    // reached only through len()/cap(): the length, not the content, flows
 	Args   [][]Leaf // for calls cut by StopAt: the origins of each argument (receiver first)
 }
 
@@ -58,6 +59,9 @@ func (l Leaf) String() string {
 	if l.Sliced {
 		s += " [sliced]"
 	}
+	if l.LenOnly {
+		s += " [len]"
+	}
 	return s
 }
 
@@ -73,6 +77,8 @@ type Slicer struct {
 	StopAt func(call ssa.CallInstruction, callee *ssa.Function) bool
 	seen   map[sliceKey]bool
 	out    map[string]Leaf
+	trail  []string // library functions entered on the current walk (outermost first)
+	inLen  int      // >0 while walking the operand of len()/cap()
 }
 
 type sliceKey struct {
@@ -126,8 +132,13 @@ func (sl *Slicer) Leaves(v ssa.Value) []Leaf {
 }
 
 func (sl *Slicer) emit(l Leaf, c *sctx) {
-	l.Via = c.via()
-	sl.out[l.String()] = l
+	l.Via = append([]string(nil), sl.trail...)
+	l.LenOnly = sl.inLen > 0
+	k := l.String()
+	if old, ok := sl.out[k]; ok && len(old.Via) <= len(l.Via) {
+		return // keep the shortest trail for a given origin
+	}
+	sl.out[k] = l
 }
 
 // walk follows v backwards. path accumulates field names read *after* this point (so that a
@@ -137,10 +148,14 @@ func (sl *Slicer) walk(v ssa.Value, c *sctx, path string, sliced bool) {
 		return
 	}
 	k := sliceKey{v, c.key() + "|" + path}
+	if sl.inLen > 0 {
+		k.ctx += "|len"
+	}
 	if sl.seen[k] {
 		return
 	}
 	sl.seen[k] = true
+	sl.storesThrough(v, c, path, sliced)
 	switch x := v.(type) {
 	case *ssa.Const:
 		name := "nil"
@@ -273,11 +288,25 @@ func (sl *Slicer) walkLoad(addr ssa.Value, c *sctx, path string, sliced bool) {
 	}
 }
 
-// walkCell: contents of a local cell / fresh slice: everything stored or copied into it.
+// walkCell: contents of a local cell / fresh slice: everything stored or copied into it. When
+// path selects a field of a struct cell (".f..."), only stores into that field (and whole-struct
+// stores) are followed and the path component is consumed.
 func (sl *Slicer) walkCell(cell ssa.Value, c *sctx, path string, sliced bool) {
 	n := 0
-	var visit func(addr ssa.Value, depth int)
-	visit = func(addr ssa.Value, depth int) {
+	wantField := ""
+	rest := path
+	if strings.HasPrefix(path, ".") {
+		if _, isStruct := Deref(cell.Type()).Underlying().(*types.Struct); isStruct {
+			wantField = path[1:]
+			rest = ""
+			if i := strings.Index(wantField, "."); i >= 0 {
+				rest = wantField[i:]
+				wantField = wantField[:i]
+			}
+		}
+	}
+	var visit func(addr ssa.Value, depth int, p string)
+	visit = func(addr ssa.Value, depth int, p string) {
 		if depth > 4 {
 			return
 		}
@@ -290,42 +319,47 @@ func (sl *Slicer) walkCell(cell ssa.Value, c *sctx, path string, sliced bool) {
 			case *ssa.Store:
 				if r.Addr == addr {
 					n++
-					sl.walk(r.Val, c, path, sliced)
+					sl.walk(r.Val, c, p, sliced)
 				}
 			case *ssa.IndexAddr:
 				if r.X == addr {
-					visit(r, depth+1)
+					visit(r, depth+1, p)
 				}
 			case *ssa.FieldAddr:
 				if r.X == addr {
-					visit(r, depth+1)
+					if depth == 0 && wantField != "" {
+						if fieldName(r.X.Type(), r.Field) != wantField {
+							continue
+						}
+						visit(r, depth+1, rest)
+						continue
+					}
+					visit(r, depth+1, p)
 				}
 			case *ssa.Slice:
 				if r.X == addr {
-					visit(r, depth+1)
+					visit(r, depth+1, p)
 				}
 			case *ssa.MapUpdate:
 				if r.Map == addr {
 					n++
-					sl.walk(r.Value, c, path, sliced)
+					sl.walk(r.Value, c, p, sliced)
 				}
 			case *ssa.Call:
-				// copy(dst, src) / append are handled where they define values; here: dst of copy
 				if bi, ok := r.Call.Value.(*ssa.Builtin); ok && bi.Name() == "copy" && len(r.Call.Args) == 2 && r.Call.Args[0] == addr {
 					n++
-					sl.walk(r.Call.Args[1], c, path, sliced)
+					sl.walk(r.Call.Args[1], c, p, sliced)
 				}
-				// mutators: binary.BigEndian.PutUintN(dst, v), rand.Read(dst), io.ReadFull
 				if callee := r.Call.StaticCallee(); callee != nil && len(r.Call.Args) >= 2 {
 					if FnPkgPath(callee) == "encoding/binary" && strings.HasPrefix(callee.Name(), "PutUint") && r.Call.Args[1] == addr {
 						n++
-						sl.walk(r.Call.Args[2], c, path, sliced)
+						sl.walk(r.Call.Args[2], c, p, sliced)
 					}
 				}
 			}
 		}
 	}
-	visit(cell, 0)
+	visit(cell, 0, path)
 	if n == 0 {
 		sl.emit(Leaf{Kind: LFresh, V: cell, Sliced: sliced}, c)
 	}
@@ -360,7 +394,13 @@ func (sl *Slicer) walkTuple(t ssa.Value, idx int, c *sctx, path string, sliced b
 			for _, a := range call.Call.Args {
 				sl.walk(a, c, path, sliced)
 			}
-		case "len", "cap", "min", "max":
+		case "len", "cap":
+			sl.inLen++
+			for _, a := range call.Call.Args {
+				sl.walkLen(a, c, path, sliced)
+			}
+			sl.inLen--
+		case "min", "max":
 			for _, a := range call.Call.Args {
 				sl.walk(a, c, path, sliced)
 			}
@@ -401,6 +441,8 @@ func (sl *Slicer) walkTuple(t ssa.Value, idx int, c *sctx, path string, sliced b
 	}
 	if callee != nil && InLib(callee) && len(callee.Blocks) > 0 && c.depth < sl.MaxDepth {
 		nc := &sctx{call: call, parent: c, fn: callee, depth: c.depth + 1}
+		sl.trail = append(sl.trail, FnKey(callee))
+		defer func() { sl.trail = sl.trail[:len(sl.trail)-1] }()
 		for _, ret := range Returns(callee) {
 			if idx < 0 {
 				for _, rv := range ret.Results {
@@ -508,4 +550,69 @@ func narrowingSlice(x *ssa.Slice) bool {
 		}
 	}
 	return true
+}
+
+// LeavesOfField returns the origins of field path (".signature") of the struct v points to / holds.
+func (sl *Slicer) LeavesOfField(v ssa.Value, path string) []Leaf {
+	if sl.MaxDepth == 0 {
+		sl.MaxDepth = 8
+	}
+	sl.seen = map[sliceKey]bool{}
+	sl.out = map[string]Leaf{}
+	sl.walk(v, &sctx{fn: sl.Root}, path, false)
+	var keys []string
+	for k := range sl.out {
+		keys = append(keys, k)
+	}
+	sort.Strings(keys)
+	var res []Leaf
+	for _, k := range keys {
+		res = append(res, sl.out[k])
+	}
+	return res
+}
+
+// storesThrough: when a field of the struct that pointer v designates is wanted (path ".f..."),
+// stores made through v in the current function (v.f = x) are origins too. This covers values
+// that were allocated in a callee and completed by the caller.
+func (sl *Slicer) storesThrough(v ssa.Value, c *sctx, path string, sliced bool) {
+	if !strings.HasPrefix(path, ".") {
+		return
+	}
+	if _, ok := v.Type().Underlying().(*types.Pointer); !ok {
+		return
+	}
+	if _, ok := Deref(v.Type()).Underlying().(*types.Struct); !ok {
+		return
+	}
+	if _, isAlloc := v.(*ssa.Alloc); isAlloc {
+		return // handled field-sensitively by walkCell
+	}
+	refs := v.Referrers()
+	if refs == nil {
+		return
+	}
+	want := path[1:]
+	rest := ""
+	if i := strings.Index(want, "."); i >= 0 {
+		rest = want[i:]
+		want = want[:i]
+	}
+	for _, ref := range *refs {
+		fa, ok := ref.(*ssa.FieldAddr)
+		if !ok || fa.X != v || fieldName(fa.X.Type(), fa.Field) != want {
+			continue
+		}
+		for _, rr := range *fa.Referrers() {
+			if st, ok := rr.(*ssa.Store); ok && st.Addr == ssa.Value(fa) {
+				sl.walk(st.Val, c, rest, sliced)
+			}
+		}
+	}
+}
+
+// walkLen walks the operand of len()/cap() with a separate visited-key space so that a value seen
+// for its length is still visited for its content later.
+func (sl *Slicer) walkLen(v ssa.Value, c *sctx, path string, sliced bool) {
+	sl.walk(v, c, path, sliced)
 }
